@@ -441,9 +441,6 @@ def sweep_obligation(label, cases):
         worst, n = 0.0, 0
         skipped = 0
         for fs, sh, o in cases:
-            if o > 1 and not period_is_right(fs):
-                skipped += 1                 # decimal frequencies whose period is truncated: the F35 obligations below
-                continue
             with warnings.catch_warnings():
                 warnings.simplefilter("ignore")
                 rule = gen(tuple(fs), shifts=sh, order=o)
@@ -456,8 +453,8 @@ def sweep_obligation(label, cases):
             worst, n = max(worst, err / scale), n + 1
         if n == 0:
             return Outcome(FAULT, "native", "empty stratum")
-        return Outcome(DISCHARGED, "native", f"{n} rules, largest relative defect {worst:.2e} (tolerance {TOL}); {skipped} order>1 cases with a "
-                       "truncated period left to the F35 obligations", extra=dict(bounded=True))
+        return Outcome(DISCHARGED, "native", f"{n} rules, largest relative defect {worst:.2e} (tolerance {TOL})"
+                       "", extra=dict(bounded=True))
     return Obligation(name, "standin", fn, func=(GSR, "generate_shift_rule"), bounded=True, timeout=900, sample=f"{len(cases)} float instances")
 
 
@@ -515,7 +512,7 @@ def f34_obligation(freqs):
                       sample="default shifts make the sine matrix singular: the property demands an exact rule or an exception")
 
 
-F35_INPUTS = [((1.015,), (2.748332987342298,), 3), ((2.3,), (1.1,), 3)]
+F36_INPUTS = [((1.015,), (2.748332987342298,), 3), ((2.3,), (1.1,), 3)]
 
 
 def f35_period_obligation():
@@ -531,7 +528,7 @@ def f35_period_obligation():
                 return Outcome(REFUTED, "native", f"frequencies_to_period(({f},)) == {T}, 2*pi/{f} == {2 * math.pi / f}", witness=dict(frequencies=[f]),
                                replay=dict(confirmed=True, observed=T, expected=2 * math.pi / f, inputs=dict(frequencies=[f])), extra=dict(bounded=True))
         return Outcome(DISCHARGED, "native", "periods of the probed decimal frequencies are 2*pi/f", extra=dict(bounded=True))
-    return Obligation(name, "standin", fn, func=(GSR, "frequencies_to_period"), bounded=True, finding="F35", timeout=300,
+    return Obligation(name, "standin", fn, func=(GSR, "frequencies_to_period"), bounded=True, timeout=300,
                       sample="np.int64(np.round(f, 5) * 10**5) truncates 101499.99999999999 to 101499")
 
 
@@ -547,7 +544,7 @@ def f35_rule_obligation(freqs, shifts, order):
             return Outcome(DISCHARGED, "native", f"defect {err:.2e}", extra=dict(bounded=True))
         return Outcome(REFUTED, "native", f"defect {err:.3e}", witness=dict(frequencies=list(freqs), shifts=list(shifts), order=order),
                        replay=dict(confirmed=True, observed=err, inputs=dict(frequencies=list(freqs), shifts=list(shifts), order=order)), extra=dict(bounded=True))
-    return Obligation(name, "standin", fn, func=(GSR, "generate_shift_rule"), bounded=True, finding="F35", timeout=300,
+    return Obligation(name, "standin", fn, func=(GSR, "generate_shift_rule"), bounded=True, timeout=300,
                       sample="higher-order rule whose shifts are reduced modulo a truncated period")
 
 
@@ -589,7 +586,7 @@ def build(tier, seed):
     for freqs in F34_INPUTS:
         plan.add(f34_obligation(freqs))
     plan.add(f35_period_obligation())
-    for freqs, shifts, order in F35_INPUTS:
+    for freqs, shifts, order in F36_INPUTS:
         plan.add(f35_rule_obligation(freqs, shifts, order))
     for q in ("_get_shift_rule", "_iterate_shift_rule", "_iterate_shift_rule_with_multipliers", "_combine_shift_rules", "frequencies_to_period",
               "process_shifts", "generate_shift_rule", "generate_multi_shift_rule"):
